@@ -98,6 +98,18 @@ def rename_history(rng, x):
             OLD_VALUES.append(old)
         except ValueError:
             pass
+    if "EDIF.identifier" in x and rng.random() < 0.25:
+        # an ill-formed identifier is offered (refused under the EDIF policy, accepted and replaced again under DEFAULT):
+        # either way the element answers to its identifier afterwards and nothing answers to the ill-formed one
+        final = x["EDIF.identifier"]
+        bad = rng.choice(["1bad-id%d", "bad id %d", "-x%d", "b.%d"]) % rng.randrange(1000)
+        try:
+            x["EDIF.identifier"] = bad
+            x["EDIF.identifier"] = final
+        except ValueError:
+            pass
+        if x["EDIF.identifier"] == final:
+            OLD_VALUES.append(bad)
     if x.name and "EDIF.identifier" in x and rng.random() < 0.12:
         # the identifier is taken away again (pop or del): the element must still answer to its name
         try:
@@ -247,6 +259,12 @@ class Checker:
                (re.escape(a), True, True, "regex"),
                (re.escape(a).swapcase() if a.isalnum() else re.escape(a), False, True, "regex-nocase"),
                (re.escape(a[:1]) + ".*", True, True, "regex-prefix")]
+        if len(a) >= 2:
+            # full match means the WHOLE value, also when a shorter alternative or a lazy quantifier could stop earlier
+            k_ = self.r.randint(1, len(a) - 1)
+            out += [("(?:%s|%s)" % (re.escape(a[:k_]), re.escape(a)), True, True, "regex-alternation-shorter-first"),
+                    (re.escape(a[:k_]) + ".*?", self.r.random() < 0.5, True, "regex-lazy-tail"),
+                    (re.escape(a[:k_]), True, True, "regex-proper-prefix-only")]
         if OLD_VALUES and not hier and key in (".NAME", "EDIF.identifier"):
             o = self.r.choice(OLD_VALUES)
             out += [(o, True, False, "exact-former-value"), (o.lower(), True, False, "exact-former-value-lower")]
